@@ -33,77 +33,118 @@ def replay_committed(prop, exe, extra=()):
     return n, viol
 
 
+def _parts(spec):
+    if "parts" in spec:
+        return spec["parts"]
+    return [spec]
+
+
 def generic_run(prop, spec, tier, seed):
+    """Runs every part (engine/kind) of a property's check, merges evidence, reports violations."""
     t0 = time.time()
-    flavour = spec.get("flavour", "asan")
-    with runner.BuildLock():
-        exe, build_s = build.build_engine(spec["engine"], flavour)
     quick = tier != "thorough"
-    count = spec["quick_count"] if quick else spec.get("thorough_count", spec["quick_count"] * 20)
-    budget = _budget(tier, spec.get("quick_budget", 45), spec.get("thorough_budget", 600))
-    kind = spec["kind"] + ("" if quick else "-thorough")
-    extra = list(spec.get("extra", []))
-    known = [k["id"] for k in runner.open_known(prop)]
-    if known:
-        extra += ["--known", ",".join(known)]
-    violations = []
-    nrep, rviol = replay_committed(prop, exe, extra)
-    for path, oc in rviol:
-        print("VIOLATION property=%s replay=%s" % (oc[1] or prop, path))
-        print("  committed replay fails: %s" % oc[2][:300])
-        violations.append(path)
-    reports, failures, infos = runner.run_workers(exe, kind, seed, count, budget, extra=extra,
-                                                 maxsize=spec.get("maxsize", 100) if quick else spec.get("thorough_maxsize", 100))
-    counters, fps, samples, notes = runner.merge_reports(reports)
+    violations, notes, samples = [], [], []
+    counters_all, classes_all = {}, {}
+    nt_total, evals, nrep_total, timeouts, build_total = 0, 0, 0, 0, 0.0
+    rules, flavours = [], []
     seen_paths = set()
-    for f in failures:
-        oc = f["outcome"]
-        if oc[0] in ("error",) and f.get("case_text") is None:
-            # engine could not run (usage / harness error): broken check, make it loud
-            print("HARNESS-ERROR %s" % oc[2][:500])
-            violations.append("harness")
-            continue
-        is_v, path, target, tag = runner.confirm_and_report(prop, exe, f, extra)
-        if not is_v:
-            counters["unreproducible_failures"] = counters.get("unreproducible_failures", 0) + 1
-            notes.append("unreproducible failure dropped: %s" % (oc[2][:200],))
-            continue
-        if path in seen_paths:
-            continue
-        seen_paths.add(path)
-        print("VIOLATION property=%s replay=%s" % (tag, path))
-        print("  %s: %s" % (target[0], target[2][:400]))
-        violations.append(path)
-    print_known(prop, counters)
-    nt = len(fps.get(spec["nt"], ()))
-    classes = {k[6:]: v for k, v in counters.items() if k.startswith("class.")}
+    parts = _parts(spec)
+    for pi, part in enumerate(parts):
+        flavour = part.get("flavour", "asan")
+        with runner.BuildLock():
+            exe, build_s = build.build_engine(part["engine"], flavour)
+        build_total += build_s
+        count = part["quick_count"] if quick else part.get("thorough_count", part["quick_count"] * 20)
+        share = part.get("budget_share", 1.0 / len(parts))
+        budget = _budget(tier, spec.get("quick_budget", 45), spec.get("thorough_budget", 600)) * share
+        kind = part["kind"] + ("" if quick else "-thorough")
+        extra = list(part.get("extra", []))
+        known = [k["id"] for k in runner.open_known(prop)]
+        if known:
+            extra += ["--known", ",".join(known)]
+        pname = part.get("name", part["engine"])
+        if pi == 0 or part["engine"] != parts[pi - 1]["engine"]:
+            nrep, rviol = replay_committed(prop, exe, extra) if part.get("replays", True) else (0, [])
+            nrep_total += nrep
+            for path, oc in rviol:
+                print("VIOLATION property=%s replay=%s" % (oc[1] or prop, path))
+                print("  committed replay fails: %s" % oc[2][:300])
+                violations.append(path)
+        reports, failures, infos = runner.run_workers(
+            exe, kind, seed, count, budget, extra=extra, nworkers=part.get("workers"),
+            maxsize=part.get("maxsize", 100) if quick else part.get("thorough_maxsize", 100))
+        counters, fps, smp, nts = runner.merge_reports(reports)
+        timeouts += infos.get("timeouts", 0)
+        confirmed = 0
+        for f in failures:
+            oc = f["outcome"]
+            if confirmed >= 3:
+                # further failing workers almost always share the root cause; keep the run short
+                counters["additional_failing_workers"] = counters.get("additional_failing_workers", 0) + 1
+                continue
+            if oc[0] in ("error",) and f.get("case_text") is None:
+                print("HARNESS-ERROR %s" % oc[2][:500])
+                violations.append("harness")
+                continue
+            is_v, path, target, tag = runner.confirm_and_report(prop, exe, f, extra, ddmin=part.get("ddmin", True))
+            if not is_v:
+                counters["unreproducible_failures"] = counters.get("unreproducible_failures", 0) + 1
+                nts.append("unreproducible failure dropped: %s" % (oc[2][:200],))
+                continue
+            if path in seen_paths:
+                continue
+            seen_paths.add(path)
+            confirmed += 1
+            print("VIOLATION property=%s replay=%s" % (tag, path))
+            print("  %s: %s" % (target[0], target[2][:400]))
+            violations.append(path)
+        prefix = (pname + ".") if len(parts) > 1 else ""
+        for k, v in counters.items():
+            if k.startswith("class."):
+                classes_all[prefix + k[6:]] = classes_all.get(prefix + k[6:], 0) + v
+            else:
+                counters_all[prefix + k] = counters_all.get(prefix + k, 0) + v
+        nt_total += len(fps.get(part["nt"], ()))
+        evals += int(counters.get(part.get("eval_counter", "cases"), 0))
+        samples += smp[:2]
+        notes += nts
+        rules.append((pname + ": " if len(parts) > 1 else "") + part["rule"])
+        flavours.append(flavour)
+    print_known(prop, counters_all)
     coverage = {
-        "evaluations": int(counters.get("cases", 0)),
-        "distinct_nontrivial": int(nt),
-        "rule": spec["rule"],
-        "samples": samples[:3] if samples else ["(no case completed)"],
-        "classification": classes,
-        "counters": {k: v for k, v in counters.items() if not k.startswith("class.")},
-        "committed_replays_run": nrep,
+        "evaluations": int(evals),
+        "distinct_nontrivial": int(nt_total),
+        "rule": " || ".join(rules),
+        "samples": samples[:4] if samples else ["(no case completed)"],
+        "classification": classes_all,
+        "counters": counters_all,
+        "committed_replays_run": nrep_total,
         "workers": runner.JOBS,
-        "worker_timeouts": infos.get("timeouts", 0),
-        "build_s": round(build_s, 1),
-        "flavour": flavour,
-        "notes": notes,
+        "worker_timeouts": timeouts,
+        "build_s": round(build_total, 1),
+        "flavour": ",".join(sorted(set(flavours))),
+        "notes": notes[:20],
         "exhaustive": False,
     }
+    if "traces_validated" in counters_all or any(k.endswith("traces_validated") for k in counters_all):
+        coverage["traces_validated_against_impl"] = sum(v for k, v in counters_all.items() if k.endswith("traces_validated"))
     coverage.update(spec.get("coverage_extra", {}))
     wall = time.time() - t0
     runner.write_evidence(prop, tier, seed, spec["level"], coverage, spec["assumptions"], wall, len(violations))
-    print("%s %s: %d cases, %d distinct non-trivial, %d violation(s), %.1fs" % (prop, tier, coverage["evaluations"], nt, len(violations), wall))
+    print("%s %s: %d evaluations, %d distinct non-trivial, %d violation(s), %.1fs" % (prop, tier, coverage["evaluations"], nt_total, len(violations), wall))
     return 1 if violations else 0
 
 
 def replay_one(prop, spec, path):
-    flavour = spec.get("flavour", "asan")
+    part = _parts(spec)[0]
+    text = open(path).read() if os.path.exists(path) else ""
+    for cand in _parts(spec):
+        if ("#engine=" + cand["engine"]) in text:
+            part = cand
+    flavour = part.get("flavour", "asan")
     with runner.BuildLock():
-        exe, _ = build.build_engine(spec["engine"], flavour)
-    extra = list(spec.get("extra", []))
+        exe, _ = build.build_engine(part["engine"], flavour)
+    extra = list(part.get("extra", []))
     oc = runner.run_replay(exe, path, extra)
     if oc[0] == "pass":
         print("PASS %s" % path)
@@ -116,9 +157,13 @@ def replay_one(prop, spec, path):
 def setup():
     with runner.BuildLock():
         build.build_gen()
-        for eng in build.ENGINES:
-            for fl in sorted(set(s.get("flavour", "asan") for s in SPECS.values() if s.get("engine") == eng)):
-                build.build_engine(eng, fl)
+        done = set()
+        for sp in SPECS.values():
+            for part in _parts(sp):
+                key = (part["engine"], part.get("flavour", "asan"))
+                if key not in done:
+                    done.add(key)
+                    build.build_engine(*key)
     print("setup ok")
     return 0
 
@@ -151,4 +196,29 @@ for _p, _qc in (("C01", 500), ("C06", 500), ("C07", 500), ("C13", 400), ("C14", 
         "engine": "hist", "flavour": "asan", "kind": _p, "nt": _p + ".nt", "level": "exploration",
         "rule": HIST_RULES[_p], "quick_count": _qc, "thorough_count": 100000, "quick_budget": 45, "thorough_budget": 600,
         "assumptions": COMMON_ASSUME, "run": generic_run,
+    }
+
+CRASH_ASSUME = COMMON_ASSUME + [
+    "crash model exactly as stated in C02: per file a prefix of the written bytes no shorter than at its last fsync; directory operations persist in issue order at least up to the last fsync of any file or directory; O_TRUNC of an existing name is a directory operation",
+    "LOG/LOG.old are written through stdio, are not intercepted and are absent from crash images",
+    "every write of a recorded history carries two marker keys (first and last update of its batch) from which the surviving batch set is read",
+]
+
+CRASH_RULE_COMMON = ("cases = rapidcheck-generated write histories (sync/non-sync puts, deletes, batches, flush, per-level compaction, reopen) recorded at "
+                     "system-call granularity on the deterministic scheduler; evaluations = (history, crash point, crash image) triples materialised and "
+                     "reopened by the real code; images per crash point: minimal, maximal, directory-ahead, data-ahead, torn last write, sampled; ")
+CRASH_RULES = {
+    "C02": CRASH_RULE_COMMON + "non-trivial = image other than the maximal one with >=1 batch required to survive (sync-acknowledged, or its log already unlinked); distinct by (case, crash point, image) hash",
+    "C03": CRASH_RULE_COMMON.replace("images per crash point: minimal, maximal, directory-ahead, data-ahead, torn last write, sampled; ", "only the byte-exact maximal (process-kill) image per kill point; ")
+           + "non-trivial = kill point strictly inside a multi-system-call operation (write, flush, compaction, log switch, MANIFEST/CURRENT switch, recovery); distinct by (case, kill point)",
+    "C04": CRASH_RULE_COMMON + "generator weighted to multi-update batches (2..400 updates, payloads spanning 32 KiB log blocks); non-trivial = image with a torn log tail taken while a multi-update or multi-fragment batch was in flight",
+    "C05": CRASH_RULE_COMMON + "each image is recovered, read back, written to, closed and opened again; non-trivial = image with a torn log tail, a half-written MANIFEST, a CURRENT switch in progress, or an orphan table",
+    "C17": CRASH_RULE_COMMON + "generator weighted to reopen (MANIFEST roll-over); non-trivial = image taken between creating the new MANIFEST and removing the old one (two MANIFESTs, a .dbtmp, or no CURRENT yet)",
+}
+
+for _p, _qc in (("C02", 200), ("C03", 200), ("C05", 200)):
+    SPECS[_p] = {
+        "engine": "crash", "flavour": "asan", "kind": _p, "nt": _p + ".nt", "level": "fault_enumeration", "eval_counter": "images",
+        "rule": CRASH_RULES[_p], "quick_count": _qc, "thorough_count": 100000, "quick_budget": 50, "thorough_budget": 900,
+        "assumptions": CRASH_ASSUME, "run": generic_run,
     }
